@@ -78,11 +78,20 @@ var c13HistEligible = map[string]bool{
 // a pure function of the case (hence of tier and seed).
 func c13HistPlan(e *Env, c c13Case) (c13Hist, bool) {
 	var h c13Hist
-	if c.Cwd != "" || !c13HistEligible[c.Class] {
+	if c.Cwd != "" || !(c13HistEligible[c.Class] || c13IsAlias(c.Class)) {
 		return h, false
 	}
+	for _, n := range c.Nodes {
+		// the wire protocol refuses a ".." segment delimited by '\' on both ends (transfer.validateRelPath,
+		// a deliberate defence for Windows peers): such a tree is judged by the scan oracle only
+		for _, seg := range strings.FieldsFunc(n.Rel, func(r rune) bool { return r == '/' || r == '\\' }) {
+			if seg == ".." {
+				return h, false
+			}
+		}
+	}
 	r := vk.NewRng(c13Hash(c) ^ vk.HashStr("c13-history"))
-	if r.Intn(e.Pick(4, 8)) != 0 {
+	if r.Intn(e.Pick(4, 8)) != 0 && !c13IsAlias(c.Class) { // every alias case: only the real sender shows which file is read for a listed name
 		return h, false
 	}
 	switch x := r.Intn(10); {
@@ -129,11 +138,15 @@ type c13HistState struct {
 	failKeys  map[string]int
 	watchdogs int
 	incompl   int
-	sample    any
+	// alias classes: uses completed with the host's resolver installed, by class, and those of them
+	// in which a listed file with a trailing-white-space name has a sibling with the trimmed name
+	aliasResolved map[string]int
+	trimSibling   int
+	sample        any
 }
 
 func c13NewHistState() (*c13HistState, error) {
-	hs := &c13HistState{agg: map[string]*c13HistAgg{}, byClass: map[string]int{}, failKeys: map[string]int{}}
+	hs := &c13HistState{agg: map[string]*c13HistAgg{}, byClass: map[string]int{}, failKeys: map[string]int{}, aliasResolved: map[string]int{}}
 	for _, f := range c13HistForms {
 		hs.agg[f] = &c13HistAgg{}
 	}
@@ -420,6 +433,9 @@ func c13RunHistory(e *Env, hs *c13HistState, c c13Case, base string, h c13Hist) 
 	fired := map[string]bool{}
 	violate := func(clause, what string, detail map[string]any) {
 		key := "history:" + h.Form + "/" + clause
+		if c13IsAlias(c.Class) { // the name class is what this history is about
+			key += "/" + c.Class
+		}
 		if fired[key] {
 			return
 		}
@@ -445,6 +461,51 @@ func c13RunHistory(e *Env, hs *c13HistState, c c13Case, base string, h c13Hist) 
 				"%d items (%v directories, %v duplicate rel paths, %v out-of-order neighbours) vs %d items scanned",
 				after, len(held.Items), d["got_directories_listed"], d["got_duplicate_rel_paths"], d["got_out_of_order_neighbours"], len(pristine.Items)), d)
 		}
+	}
+	// confirmSource: a use on an alias tree did not complete. Every listed file was just read by the
+	// harness at the path the host's resolver returns (c13WantTree), so the manifest and the resolver
+	// describe an existing tree. The same manifest is sent twice more over the mock transport (no
+	// network, fresh output directories, no resume): once as the host does (SUBJECT: the host's
+	// resolver) and once with a resolver that answers, for the same rel paths, the path of a byte-equal
+	// copy with an ordinary name (CONTROL). Wire content, receiver and manifest are identical; the
+	// only difference is the spelling of the source path handed to the sender. Control completes and
+	// subject does not => the sender does not read the listed file from the source it resolves to.
+	confirmSource := func(j int, nth string) {
+		hm := h
+		hm.Transport, hm.Resume = "mock", false
+		e.R.Count("history_alias_incomplete_use_confirmations")
+		ctlDir := filepath.Join(outBase, fmt.Sprintf("ctl%d-src", j))
+		if err := os.MkdirAll(ctlDir, 0755); err != nil {
+			return
+		}
+		ctl := map[string]string{}
+		for i, it := range pristine.Items {
+			if it.IsDir {
+				continue
+			}
+			data, err := os.ReadFile(resolve(it.RelPath))
+			if err != nil {
+				return
+			}
+			ctl[it.RelPath] = filepath.Join(ctlDir, fmt.Sprintf("f%05d.dat", i))
+			if err := os.WriteFile(ctl[it.RelPath], data, 0644); err != nil {
+				return
+			}
+		}
+		subjOut, ctlOut := filepath.Join(outBase, fmt.Sprintf("subj%d", j)), filepath.Join(outBase, fmt.Sprintf("ctl%d", j))
+		_ = os.MkdirAll(subjOut, 0755)
+		_ = os.MkdirAll(ctlOut, 0755)
+		subj := c13Use(hs.lp, hm, rootPath, c13CloneManifest(pristine), resolver, subjOut)
+		if subj.ok() || subj.Watchdog || subj.Setup != "" {
+			return // not reproducible without the network / no verdict
+		}
+		ctrl := c13Use(hs.lp, hm, rootPath, c13CloneManifest(pristine), func(rel string) string { return ctl[rel] }, ctlOut)
+		if !ctrl.ok() {
+			return // the tree cannot be sent at all (e.g. a name the wire protocol refuses): not this property
+		}
+		violate("source-not-read", fmt.Sprintf("%s and a repetition over the mock transport did not complete, although every listed file is readable with the listed size at the path "+
+			"the host's resolver returns and the same manifest completes when the resolver names byte-equal copies with ordinary names: the sender does not read a listed file from the source it resolves to",
+			nth), map[string]any{"use": j + 1, "subject_send_err": fmt.Sprint(subj.SendErr), "subject_recv_err": fmt.Sprint(subj.RecvErr)})
 	}
 	judgeUse := func(j int, o c13UseOut, outDir string) {
 		nth := fmt.Sprintf("use %d of %d", j+1, h.Uses)
@@ -481,6 +542,9 @@ func c13RunHistory(e *Env, hs *c13HistState, c c13Case, base string, h c13Hist) 
 						c.ID, nth, h.Form, h.Transport, pristine.FileCount, o.SendErr, o.RecvErr))
 				}
 				e.R.Count("history_use_incomplete")
+				if c13IsAlias(c.Class) && resolver != nil {
+					confirmSource(j, nth)
+				}
 			}
 			return
 		}
@@ -537,6 +601,12 @@ func c13RunHistory(e *Env, hs *c13HistState, c c13Case, base string, h c13Hist) 
 		a.Completed++
 		hs.byClass[c.Class]++
 	}
+	if c13IsAlias(c.Class) && resolver != nil {
+		hs.aliasResolved[c.Class] += usesOK
+		if c13TrimmedSibling(c) {
+			hs.trimSibling += usesOK
+		}
+	}
 	if dirFirst {
 		a.DirFirst++
 	}
@@ -592,6 +662,8 @@ func c13HistFinish(e *Env, hs *c13HistState) {
 	e.R.SetExtra("history_totals", tot)
 	e.R.SetExtra("history_completed_by_feature_class", hs.byClass)
 	e.R.SetExtra("history_failing_by_key", hs.failKeys)
+	e.R.SetExtra("history_alias_uses_completed_with_resolver_installed", hs.aliasResolved)
+	e.R.SetExtra("history_uses_completed_trailing_whitespace_file_next_to_trimmed_name", hs.trimSibling)
 	if hs.sample != nil {
 		e.R.Sample(hs.sample)
 	}
@@ -606,6 +678,13 @@ func c13HistFinish(e *Env, hs *c13HistState) {
 	e.R.Require(tot.QuicUses >= e.Pick(40, 600), fmt.Sprintf("only %d history uses completed over loopback QUIC", tot.QuicUses))
 	e.R.Require(tot.DirFirst >= e.Pick(80, 1200), fmt.Sprintf("only %d histories whose manifest lists a directory before a file", tot.DirFirst))
 	e.R.Require(tot.Announced >= e.Pick(250, 4000), fmt.Sprintf("only %d received manifests compared with the scanned one", tot.Announced))
+	for _, d := range c13Classes {
+		if c13IsAlias(d.Key) {
+			n := e.Pick(d.SampleQ, d.SampleT)
+			e.R.Require(hs.aliasResolved[d.Key] >= n, fmt.Sprintf("history, %s: only %d uses completed with the host's resolver installed, need %d", d.Key, hs.aliasResolved[d.Key], n))
+		}
+	}
+	e.R.Require(hs.trimSibling >= e.Pick(4, 60), fmt.Sprintf("history: only %d uses completed on a tree with a trailing-white-space file name next to the trimmed name (resolver installed)", hs.trimSibling))
 	e.R.Require(len(classes) >= 10, fmt.Sprintf("histories completed in only %d feature classes", len(classes)))
 	e.R.Require(tot.UsesCompleted*10 >= tot.Uses*9, fmt.Sprintf("only %d of %d history uses completed", tot.UsesCompleted, tot.Uses))
 }
